@@ -12,10 +12,20 @@
                LIMIT / OFFSET / ORDER BY presence, how the result is consumed (`fetch=True`, `.lastrowid`, `.rowcount`, ...), and the
                number of `return` / `raise` statements that lexically precede the call in the function (an early exit that can skip
                the statement, e.g. a cache).
-  kind "call"  every other cursor-method call (`fetchall`, `fetchone`, `fetchmany`, `close`, `commit`, `rollback`, `connect`).
+  kind "call"  every other cursor-method call (`fetchall`, `fetchone`, `fetchmany`, `close`, `commit`, `rollback`, `connect`);
+               `toks` = [the method name].
   kind "loop"  every `for` / `while` loop and comprehension of the file (header source), so that a new loop around - or beside -
                the cursor calls changes the table.
   kind "sqlstr" every SQL-looking string literal that does NOT reach a cursor call (a statement built somewhere else).
+  kind "connkw" one row per argument of every `….connect(...)` call: `sql` = keyword name (`arg<i>` for positional), `params` = source
+               of the value (`isolation_level=None`, `timeout=5`, ...).
+  kind "connattr" every assignment to a connection-configuration attribute (`isolation_level`, `autocommit`, `row_factory`,
+               `text_factory`) on any object: `callee` = the object, `sql` = attribute, `params` = source of the value.
+  (PRAGMA / BEGIN / COMMIT statements are "stmt" rows; `commit()` / `rollback()` / `close()` / `connect()` are "call" rows, and so is
+  every call of a method of the class that itself creates a connection, e.g. `self.__db_connect()`.)
+Every row also carries `reach`, which call paths run it: "connect" = it is in a function that creates a connection (runs for EVERY
+connection the object ever uses), "init-only" = its function is reachable from `__init__` only (runs for the first connection, not
+for a replacement made later), "any" = reachable from other entry points.
 
 The table is written to lean/Csverif/Gen/SqlSites.lean (only when its text changes); Props/C09Sql.lean proves it equal to the
 audited table by `decide`, and proves the model-relevant facts about the audited table.  A rewritten, added or removed statement,
@@ -34,6 +44,7 @@ OUT = os.path.join(VERIF, "lean", "Csverif", "Gen", "SqlSites.lean")
 
 EXEC_NAMES = ("execute", "executemany", "executescript")
 OTHER_CURSOR = ("fetchall", "fetchone", "fetchmany", "commit", "rollback", "close", "connect", "cursor")
+CONN_ATTRS = ("isolation_level", "autocommit", "row_factory", "text_factory")
 RESULT_ATTRS = ("lastrowid", "rowcount", "fetchall", "fetchone", "fetchmany", "arraysize")
 SQL_RE = re.compile(r"^\s*(SELECT|INSERT|UPDATE|DELETE|PRAGMA|CREATE|DROP|ALTER|REPLACE|ATTACH|DETACH|VACUUM|BEGIN|COMMIT|"
                     r"ROLLBACK|WITH|SAVEPOINT|RELEASE|ANALYZE|REINDEX|EXPLAIN)\b", re.I)
@@ -225,6 +236,42 @@ def scan():
                           decorator_list=[], lineno=0, col_offset=0)
     funcs.append(FuncScan(mod, "<module>"))
 
+    # call graph inside the file (by method name) and which functions create a connection
+    short = lambda fs: fs.qual.split(".")[-1]
+    calls = {}
+    makers = set()
+    for fs in funcs:
+        for node in fs._walk_own(fs.fn):
+            if isinstance(node, ast.Call) and isinstance(node.func, ast.Attribute):
+                if node.func.attr == "connect":
+                    makers.add(short(fs))
+                if isinstance(node.func.value, ast.Name) and node.func.value.id in ("self", "cls"):
+                    calls.setdefault(short(fs), set()).add(node.func.attr)
+            elif isinstance(node, ast.Call) and isinstance(node.func, ast.Name):
+                calls.setdefault(short(fs), set()).add(node.func.id)
+    names = {short(fs) for fs in funcs}
+
+    def callers_of(name):
+        seen, todo = set(), [name]
+        while todo:
+            cur = todo.pop()
+            for f, cs in calls.items():
+                if cur in cs and f not in seen and f in names:
+                    seen.add(f)
+                    todo.append(f)
+        return seen
+
+    def reach_of(fs):
+        n = short(fs)
+        if n in makers:
+            return "connect"
+        cs = callers_of(n) - {n}
+        if n == "__init__" and not cs:
+            return "init-only"
+        if cs and cs <= {"__init__"}:
+            return "init-only"
+        return "any"
+
     docstrings = set()
     for node in ast.walk(tree):
         if isinstance(node, (ast.FunctionDef, ast.AsyncFunctionDef, ast.ClassDef, ast.Module)):
@@ -238,7 +285,7 @@ def scan():
         for node in fs._walk_own(fs.fn):
             if isinstance(node, ast.Call) and isinstance(node.func, ast.Attribute):
                 attr = node.func.attr
-                if is_exec_name(attr) or attr in OTHER_CURSOR:
+                if is_exec_name(attr) or attr in OTHER_CURSOR or (attr in makers and attr in names):
                     rows.append(node)
         rows.sort(key=lambda n: (n.lineno, n.col_offset))
         return rows
@@ -316,9 +363,39 @@ def scan():
                 # only calls on something that can be a connection / cursor: skip e.g. `self.close()` of the storage itself?  no:
                 # every such method name is listed, the receiver text tells them apart
                 out.append(((node.lineno, node.col_offset), dict(
-                    method=fs.qual, kind="call", callee=callee, sql="", toks=[], params=", ".join(ast.unparse(a) for a in node.args[:1]),
+                    method=fs.qual, kind="call", callee=callee, sql="", toks=[attr], params=", ".join(ast.unparse(a) for a in node.args[:1]),
                     ctx=">".join(chain), inLoop=in_loop(chain), underMutex=lex_mutex(fs, node), hasLimit=False, hasOffset=False,
                     hasOrderBy=False, result="", exitsBefore=fs.exits_before(node))))
+                if attr == "connect":
+                    args = [("arg%d" % i, a) for i, a in enumerate(node.args)] + [(kw.arg or "**", kw.value) for kw in node.keywords]
+                    for j, (k, v) in enumerate(args):
+                        out.append(((node.lineno, node.col_offset + 0.001 * (j + 1)), dict(
+                            method=fs.qual, kind="connkw", callee=callee, sql=k, toks=[], params=ast.unparse(v), ctx=">".join(chain),
+                            inLoop=in_loop(chain), underMutex=lex_mutex(fs, node), hasLimit=False, hasOffset=False, hasOrderBy=False,
+                            result="", exitsBefore=fs.exits_before(node))))
+        for node in fs._walk_own(fs.fn):
+            tgs = []
+            if isinstance(node, ast.Assign):
+                tgs = [(t, node.value) for t in node.targets]
+            elif isinstance(node, (ast.AugAssign, ast.AnnAssign)) and node.value is not None:
+                tgs = [(node.target, node.value)]
+            for t, v in tgs:
+                for t1 in (t.elts if isinstance(t, (ast.Tuple, ast.List)) else [t]):
+                    if isinstance(t1, ast.Attribute) and t1.attr in CONN_ATTRS:
+                        chain = fs.chain(node)
+                        out.append(((node.lineno, node.col_offset), dict(
+                            method=fs.qual, kind="connattr", callee=ast.unparse(t1.value), sql=t1.attr, toks=[], params=ast.unparse(v),
+                            ctx=">".join(chain), inLoop=in_loop(chain), underMutex=lex_mutex(fs, node), hasLimit=False, hasOffset=False,
+                            hasOrderBy=False, result="", exitsBefore=fs.exits_before(node))))
+            if isinstance(node, ast.Call) and isinstance(node.func, ast.Name) and node.func.id == "setattr" and len(node.args) >= 3:
+                a1 = node.args[1]
+                nm = a1.value if isinstance(a1, ast.Constant) and isinstance(a1.value, str) else None
+                if nm is None or nm in CONN_ATTRS:
+                    chain = fs.chain(node)
+                    out.append(((node.lineno, node.col_offset), dict(
+                        method=fs.qual, kind="connattr", callee=ast.unparse(node.args[0]), sql=nm or "{dyn:%s}" % ast.unparse(a1), toks=[],
+                        params=ast.unparse(node.args[2]), ctx=">".join(chain), inLoop=in_loop(chain), underMutex=lex_mutex(fs, node),
+                        hasLimit=False, hasOffset=False, hasOrderBy=False, result="", exitsBefore=fs.exits_before(node))))
         for node in fs._walk_own(fs.fn):
             hdr = None
             if isinstance(node, (ast.For, ast.AsyncFor)):
@@ -345,6 +422,9 @@ def scan():
                     underMutex=False, hasLimit="LIMIT" in toks, hasOffset="OFFSET" in toks, hasOrderBy=has_seq(toks, ["ORDER", "BY"]),
                     result="", exitsBefore=fs.exits_before(node))))
     out.sort(key=lambda t: (t[0], t[1]["kind"], t[1]["sql"]))
+    reach_by_qual = {fs.qual: reach_of(fs) for fs in funcs}
+    for _pos, r in out:
+        r["reach"] = reach_by_qual.get(r["method"], "any")
     return [r for _pos, r in out]
 
 
@@ -353,7 +433,7 @@ def all_sites():
         return scan()
     except (OSError, SyntaxError) as e:
         return [dict(method="<unparsable>", kind="sqlstr", callee="", sql=type(e).__name__, toks=[], params="", ctx="", inLoop=False,
-                     underMutex=False, hasLimit=False, hasOffset=False, hasOrderBy=False, result="", exitsBefore=0)]
+                     underMutex=False, hasLimit=False, hasOffset=False, hasOrderBy=False, result="", exitsBefore=0, reach="any")]
 
 
 def lean_str(s):
@@ -366,11 +446,11 @@ def lean_bool(b):
 
 def render_row(r):
     return ("  { method := %s, kind := %s, callee := %s,\n    sql := %s,\n    toks := [%s],\n    params := %s, ctx := %s, "
-            "inLoop := %s, underMutex := %s,\n    hasLimit := %s, hasOffset := %s, hasOrderBy := %s, result := %s, exitsBefore := %d }"
+            "inLoop := %s, underMutex := %s,\n    hasLimit := %s, hasOffset := %s, hasOrderBy := %s, result := %s, exitsBefore := %d, reach := %s }"
             % (lean_str(r["method"]), lean_str(r["kind"]), lean_str(r["callee"]), lean_str(r["sql"]),
                ", ".join(lean_str(t) for t in r["toks"]), lean_str(r["params"]), lean_str(r["ctx"]), lean_bool(r["inLoop"]),
                lean_bool(r["underMutex"]), lean_bool(r["hasLimit"]), lean_bool(r["hasOffset"]), lean_bool(r["hasOrderBy"]),
-               lean_str(r["result"]), r["exitsBefore"]))
+               lean_str(r["result"]), r["exitsBefore"], lean_str(r["reach"])))
 
 
 def render(sites, name="sqlSites", header=True):
